@@ -239,6 +239,9 @@ pub mod verif {
     pub fn fp_double(a: &U256) -> U256 { a.fp_double() }
     pub fn fp_triple(a: &U256) -> U256 { a.fp_triple() }
     pub fn fp_inv(a: &U256) -> U256 { a.fp_inv() }
+    pub fn fp_mul(a: &U256, b: &U256) -> U256 { a.fp_mul(b) }
+    pub fn fp_sqr(a: &U256) -> U256 { a.fp_sqr() }
+    pub fn fp_div2(a: &U256) -> U256 { a.fp_div2() }
     pub fn table_entry(i: usize, j: usize) -> U256 { crate::sm2p256_table::SM2P256_PRECOMPUTED[i][j] }
     pub fn point_from_bytes(b: &[u8]) -> Sm2Result<Point> { Point::from_byte(b) }
 }
